@@ -53,8 +53,195 @@ def mutate(rng, s):
             s.ops = list(s.ops) + [("activate",), ("send", rng.choice(evs)), ("send", rng.choice(evs))]
 
 
+def probe_created_inside_callback(seed, cases=40):
+    """A machine created while another machine is in the middle of a transition (from one of its callbacks, any
+    group): the new machine enters its initial (or start) state exactly once, at once, runs only that state's enter
+    callbacks, and an event sent to it right away is processed before the constructor's caller goes on — whatever the
+    other machine is doing. Direct Spec on the implementation (the model has one machine per operation)."""
+    import random
+    import warnings
+    from statemachine import State, StateMachine
+    fails = []
+    for k in range(cases):
+        rng = random.Random(f"{seed}:created-inside:{k}")
+        grp = rng.choice(["before", "on", "after", "enter", "exit", "cond", "validators"])
+        rtc_parent, rtc_child = rng.random() < 0.8, rng.random() < 0.8
+        use_start = rng.random() < 0.3
+        stored = rng.random() < 0.25
+        same_class = rng.random() < 0.3
+        log = []
+
+        class Child(StateMachine):
+            c0 = State(initial=True)
+            c1 = State()
+            c2 = State(final=True)
+            step = c0.to(c1) | c1.to(c2)
+
+            def on_enter_c0(self):
+                log.append(("child-enter", "c0"))
+
+            def on_enter_c1(self):
+                log.append(("child-enter", "c1"))
+
+            def on_step(self):
+                return "stepped"
+
+        class Rec:
+            state = None
+
+        made = {}
+
+        def body(self, *a, **kw):
+            if "child" in made:
+                return True
+            log.append(("parent-cb", grp))
+            m = Rec()
+            if stored:
+                m.state = "c1"
+            kwargs = dict(rtc=rtc_child)
+            if use_start and not stored:
+                kwargs["start_value"] = "c1"
+            cls = type(self) if same_class else Child
+            if same_class:
+                kwargs = dict(rtc=rtc_child)
+                m = Rec()
+            ch = cls(m, **kwargs)
+            made["child"] = ch
+            made["state_right_after"] = ch.current_state.id
+            if not same_class:
+                made["step_result"] = ch.send("step")
+                made["state_after_step"] = ch.current_state.id
+            log.append(("parent-cb-end", grp))
+            return True
+
+        ns = {}
+        a, b = State(initial=True), State()
+        kw = {grp: "cb"} if grp in ("before", "on", "after", "cond", "validators") else {}
+        ns.update(a=a, b=b, go=a.to(b, **kw), back=b.to(a), cb=body)
+        if grp == "enter":
+            ns["on_enter_b"] = body
+        if grp == "exit":
+            ns["on_exit_a"] = body
+        with warnings.catch_warnings():
+            warnings.simplefilter("ignore")
+            try:
+                P = type(StateMachine)("Parent", (StateMachine,), ns)
+                sm = P(rtc=rtc_parent)
+                sm.send("go")
+            except Exception as e:  # noqa: BLE001
+                fails.append(f"case {k} (callback group {grp}): {type(e).__name__}: {e}")
+                continue
+        what = f"case {k} (group {grp}, parent rtc={rtc_parent}, child rtc={rtc_child}, start_value={use_start}, stored={stored}, same class={same_class})"
+        if "child" not in made:
+            fails.append(f"{what}: the callback did not run")
+            continue
+        if same_class:
+            if made["state_right_after"] != "a":
+                fails.append(f"{what}: the machine created inside the callback is in {made['state_right_after']!r} right after its constructor")
+            continue
+        want0 = "c1" if (stored or use_start) else "c0"
+        if made["state_right_after"] != want0:
+            fails.append(f"{what}: right after its constructor the new machine is in {made['state_right_after']!r}, expected {want0!r}")
+            continue
+        enters = [x for x in log if x[0] == "child-enter"]
+        want_enters = ([] if stored else [("child-enter", want0)]) + [("child-enter", "c1")] * (want0 == "c0")
+        if enters != want_enters:
+            fails.append(f"{what}: enter callbacks of the new machine {enters}, expected {want_enters}")
+        want_after = "c1" if want0 == "c0" else "c2"
+        if made["step_result"] != "stepped" or made["state_after_step"] != want_after:
+            fails.append(f"{what}: its first event returned {made['step_result']!r} and left it in {made['state_after_step']!r}, "
+                         f"expected 'stepped' / {want_after!r}")
+        if sm.current_state.id != "b":
+            fails.append(f"{what}: the outer machine ended in {sm.current_state.id!r}")
+    return fails
+
+
+def probe_mixed_instances_of_one_class(seed, cases=30):
+    """Instances of ONE class that differ in what their listeners / models provide — some with coroutine callbacks,
+    some without — created in any order. Each instance for itself: without coroutine callbacks it is activated by its
+    constructor (initial state entered once, enter callbacks run); with them the activation happens before its first
+    event, the coroutine callbacks are awaited, exactly once."""
+    import asyncio
+    import random
+    import warnings
+    from statemachine import State, StateMachine
+    fails = []
+    for k in range(cases):
+        rng = random.Random(f"{seed}:mixed-instances:{k}")
+
+        class M(StateMachine):
+            a = State(initial=True)
+            b = State()
+            go = a.to(b)
+            back = b.to(a)
+
+            def on_enter_a(self):
+                self.seen.append("machine:enter_a")
+
+            def __init__(self, *args, **kw):
+                self.seen = []
+                super().__init__(*args, **kw)
+
+        class AL:
+            def __init__(self):
+                self.seen = []
+
+            async def on_enter_state(self, state):
+                await asyncio.sleep(0)
+                self.seen.append(f"async:enter_{state.id}")
+
+        class SL:
+            def __init__(self):
+                self.seen = []
+
+            def on_enter_state(self, state):
+                self.seen.append(f"sync:enter_{state.id}")
+
+        kinds = [rng.choice(["plain", "async", "sync"]) for _ in range(rng.randint(2, 5))]
+        if "async" not in kinds:
+            kinds[rng.randrange(len(kinds))] = "async"
+        if all(x == "async" for x in kinds):
+            kinds[rng.randrange(len(kinds))] = "plain"
+        made = []
+        with warnings.catch_warnings():
+            warnings.simplefilter("error", RuntimeWarning)       # a coroutine that is never awaited
+            try:
+                for kind in kinds:
+                    lst = AL() if kind == "async" else SL() if kind == "sync" else None
+                    sm = M(listeners=[lst]) if lst is not None else M()
+                    made.append((kind, sm, lst, sm.current_state_value))
+                for kind, sm, lst, _v in made:
+                    sm.send("go")
+            except Exception as e:  # noqa: BLE001
+                fails.append(f"case {k} kinds={kinds}: {type(e).__name__}: {e}")
+                continue
+        for idx, (kind, sm, lst, v0) in enumerate(made):
+            what = f"case {k} kinds={kinds}: instance {idx} ({kind})"
+            if kind == "async":
+                if v0 is not None:
+                    fails.append(f"{what}: activated by its constructor although it has coroutine callbacks (state {v0!r})")
+                if lst.seen != ["async:enter_a", "async:enter_b"]:
+                    fails.append(f"{what}: its coroutine callbacks ran as {lst.seen}, expected each state entered once")
+            else:
+                if v0 != "a":
+                    fails.append(f"{what}: not activated by its constructor (stored {v0!r})")
+                if kind == "sync" and lst.seen != ["sync:enter_a", "sync:enter_b"]:
+                    fails.append(f"{what}: its listener saw {lst.seen}")
+            if sm.seen != ["machine:enter_a"]:
+                fails.append(f"{what}: the initial state's own enter callback ran {sm.seen.count('machine:enter_a')} times")
+            if sm.current_state.id != "b":
+                fails.append(f"{what}: ended in {sm.current_state.id!r}")
+    return fails
+
+
 def run(ctx):
     lean_obligations(ctx)
+    from framework import safe_probe
+    for nm, fn in (("created_inside_callback", probe_created_inside_callback), ("mixed_instances_of_one_class", probe_mixed_instances_of_one_class)):
+        pf = safe_probe(fn, ctx.seed)
+        ctx.coverage[nm + "_cases"] = 40 if nm.startswith("created") else 30
+        if pf:
+            ctx.violation(ctx.write_replay(nm + ".txt", "\n".join(pf[:12]) + "\n"), pf[0][:200])
     from framework import run_py_corpus
     ctx.coverage["corpus_programs"] = run_py_corpus(ctx)
     ctx.coverage["rule"] = ("seeded random machines; every state value (and invalid ones) as the stored value with "
